@@ -272,6 +272,10 @@ class MetadorDataset(MetadorNode):
     _self_RO_FORBIDDEN = {"resize", "make_scale", "write_direct", "flush"}
 
     def __getattr__(self, key):
+        if isinstance(getattr(type(self), key, None), property):
+            # we only get here if the getter of a wrapper property refused access
+            # (the raised exception is an AttributeError) -> do not pass through!
+            raise UnsupportedOperationError(key)
         if self.acl[NodeAcl.read_only] and key in self._self_RO_FORBIDDEN:
             self._guard_acl(NodeAcl.read_only, key)
         if self.acl[NodeAcl.skel_only] and key == "get":
